@@ -353,9 +353,12 @@ fn g_chunking(seed: u64, emit: Emit) {
             }
         }
         // second sentence of C07: identical to handing the messages to run one at a time (when they fit)
+        // (reference: the real `run`, one message at a time; only when every message fits and is consumed completely)
         for n in [16usize, 21, 32, 43, 64, 128] {
-            for cuts in [vec![], (1..=l).collect::<Vec<usize>>()] {
-                if !emit(Scenario { mode: Mode::Process { n, cuts, yields: 0, fail_at: None }, input: input.clone(), whole: false, base: None }) { return; }
+            let each = Scenario { mode: Mode::RunEach(n), input: input.clone(), whole: false, base: None };
+            if input.split_inclusive(|b| *b == b'\n').any(|m| m.len() > n) { continue; }
+            for cuts in [vec![], (1..=l).collect::<Vec<usize>>(), (1..=l / 4).map(|i| i * 4).collect()] {
+                if !emit(Scenario { mode: Mode::Process { n, cuts, yields: 0, fail_at: None }, input: input.clone(), whole: false, base: Some(Box::new(each.clone())) }) { return; }
             }
         }
     }
@@ -557,10 +560,10 @@ pub const FAMILIES: &[Family] = &[
     Family { name: "faulty", props: &["C06"], kinds: &["handler", "error", "panic", "hang"], gen: g_faulty,
         bound: "47 kinds of faulty unit x 5 positions in a message x 7 surrounding good messages; run on one buffer and process (N = 64) with reads of 1, 5 and all bytes" },
     Family { name: "chunking", props: &["C07"], kinds: &["handler", "error", "response", "transport", "args", "panic", "hang"], gen: g_chunking,
-        bound: "28 streams x N in {4,5,8,10,16,21,32,43,64} x all compositions (length <= 12) or single bytes / all 2-splits / fixed sizes 2..=9 / empty reads / 40 sampled compositions; 0, 1, 3 suspensions per transport call; reference = same stream in maximal reads (real code)" },
-    Family { name: "containers", props: &["C08"], kinds: &["handler", "args", "error", "rest", "response", "panic", "hang"], gen: g_containers,
+        bound: "28 streams x N in {4,5,8,10,16,21,32,43,64} x all compositions (length <= 12) or single bytes / all 2-splits / fixed sizes 2..=9 / empty reads / 40 sampled compositions; 0, 1, 3 suspensions per transport call; reference = same stream in maximal reads (real code); and, for streams of fitting messages, reference = the real run one message at a time" },
+    Family { name: "containers", props: &["C08"], kinds: &["handler", "args", "error", "rest", "panic", "hang"], gen: g_containers,
         bound: "payloads of 1..=3 bytes from 12 special bytes in strings of both quote kinds and blocks, 4 message shapes; run whole and process (N = 64) with a read boundary at every position; reference = one run over the whole stream" },
-    Family { name: "queue", props: &["C09"], kinds: &["queue", "error", "response", "panic", "hang"], gen: g_queue,
+    Family { name: "queue", props: &["C09"], kinds: &["queue", "error", "response", "handler", "panic", "hang"], gen: g_queue,
         bound: "queue of capacity 3: every sequence of 1..=4 operations from a pool of 12 (22 620); every sequence of 1..=9 operations from {undefined header, handler error, ERRor?, COUNt?} followed by a drain (349 524); every error number -420..=60 raised and read back" },
     Family { name: "transport", props: &["C10"], kinds: &["transport", "panic", "hang"], gen: g_transport,
         bound: "28 streams x N in {8,32} x 4 chunkings (one with empty reads) x a transport error at every call index (and none)" },
